@@ -316,7 +316,7 @@ func (oc *outsChecker) checkFile(outPath string, exp, act interface{}, where str
 }
 
 // CheckOutsDir is the C13 oracle for a completed run.
-func (r *Run) CheckOutsDir(prog *Prog, expTop map[string]interface{}, add func(oracle, msg string)) *outsChecker {
+func (r *Run) CheckOutsDir(prog *Prog, expAll interface{}, add func(oracle, msg string)) *outsChecker {
 	oc := &outsChecker{r: r, p: prog, refs: map[string]int{}, add: add, kinds: map[string]int{}}
 	top := prog.Pipeline(prog.Top.Callee)
 	raw, err := os.ReadFile(path.Join(r.PsDir, top.Name, "fork0", "_outs"))
@@ -329,6 +329,14 @@ func (r *Run) CheckOutsDir(prog *Prog, expTop map[string]interface{}, add func(o
 		add("top-outs-not-json", fmt.Sprintf("%v: %s", err, string(raw)))
 		return oc
 	}
+	if prog.Top.Mapped {
+		// a map-called top-level pipeline: _outs is a collection of the pipeline's
+		// outputs, and every element has its own directory outs/<index or key>
+		oc.checkMappedTop(top, expAll, actV)
+		oc.checkWritesStayInside()
+		return oc
+	}
+	expTop, _ := expAll.(map[string]interface{})
 	act, ok := actV.(map[string]interface{})
 	if !ok {
 		add("top-outs-not-json", "not an object: "+string(raw))
@@ -337,6 +345,74 @@ func (r *Run) CheckOutsDir(prog *Prog, expTop map[string]interface{}, add func(o
 	for _, f := range top.Outs {
 		oc.countRefs(f.T, expTop[f.Name])
 	}
+	oc.checkTopStruct(top, path.Join(r.PsDir, "outs"), expTop, act, "")
+	oc.checkWritesStayInside()
+	return oc
+}
+
+func (oc *outsChecker) checkMappedTop(top *PipelineDef, expAll, actV interface{}) {
+	add := oc.add
+	outs := path.Join(oc.r.PsDir, "outs")
+	switch ex := expAll.(type) {
+	case []interface{}:
+		aa, ok := actV.([]interface{})
+		if !ok || len(aa) != len(ex) {
+			if len(ex) == 0 && nullish(actV) {
+				return
+			}
+			add("shape-changed", fmt.Sprintf("map-called top-level pipeline over %d elements, _outs has %s", len(ex), Show(actV)))
+			return
+		}
+		for _, e := range ex {
+			if m, ok := e.(map[string]interface{}); ok {
+				for _, f := range top.Outs {
+					oc.countRefs(f.T, m[f.Name])
+				}
+			}
+		}
+		for i, e := range ex {
+			em, _ := e.(map[string]interface{})
+			am, ok := aa[i].(map[string]interface{})
+			if !ok {
+				add("shape-changed", fmt.Sprintf("element %d of the map-called top-level pipeline's _outs is %s", i, Show(aa[i])))
+				continue
+			}
+			oc.checkTopStruct(top, path.Join(outs, fmt.Sprint(i)), em, am, fmt.Sprintf("[%d].", i))
+		}
+	case map[string]interface{}:
+		am, ok := actV.(map[string]interface{})
+		if !ok || len(am) != len(ex) {
+			if len(ex) == 0 && nullish(actV) {
+				return
+			}
+			add("shape-changed", fmt.Sprintf("map-called top-level pipeline over keys %v, _outs has %s", sortedKeys(ex), Show(actV)))
+			return
+		}
+		for _, e := range ex {
+			if m, ok := e.(map[string]interface{}); ok {
+				for _, f := range top.Outs {
+					oc.countRefs(f.T, m[f.Name])
+				}
+			}
+		}
+		for _, k := range sortedKeys(ex) {
+			em, _ := ex[k].(map[string]interface{})
+			av, ok := am[k].(map[string]interface{})
+			if !ok {
+				add("shape-changed", fmt.Sprintf("element %q of the map-called top-level pipeline's _outs is %s", k, Show(am[k])))
+				continue
+			}
+			oc.checkTopStruct(top, path.Join(outs, k), em, av, fmt.Sprintf("{%s}.", k))
+		}
+	default:
+		if !nullish(actV) {
+			add("shape-changed", fmt.Sprintf("map-called top-level pipeline over nothing, _outs has %s", Show(actV)))
+		}
+	}
+}
+
+func (oc *outsChecker) checkTopStruct(top *PipelineDef, dir string, expTop, act map[string]interface{}, where string) {
+	add := oc.add
 	declared := map[string]bool{}
 	for _, f := range top.Outs {
 		declared[f.Name] = true
@@ -345,21 +421,23 @@ func (r *Run) CheckOutsDir(prog *Prog, expTop map[string]interface{}, add func(o
 			add("shape-changed", fmt.Sprintf("output %s is missing from the rewritten _outs", f.Name))
 			continue
 		}
-		oc.check(path.Join(r.PsDir, "outs"), top.Name, f.Name, f.T, expTop[f.Name], av, f.Name)
+		oc.check(dir, top.Name, f.Name, f.T, expTop[f.Name], av, where+f.Name)
 	}
 	for k := range act {
 		if !declared[k] {
-			add("shape-changed", fmt.Sprintf("the rewritten _outs has an undeclared key %q", k))
+			add("shape-changed", fmt.Sprintf("the rewritten _outs has an undeclared key %q", where+k))
 		}
 	}
-	// mrp must not have touched anything outside the pipestance directory
+}
+
+// mrp must not have touched anything outside the pipestance directory
+func (oc *outsChecker) checkWritesStayInside() {
 	for _, ev := range vos.W.Events {
 		if ev.PKind == "mrp" && ev.Err == "" && !strings.HasPrefix(ev.Path, "ps/") && ev.Path != "ps" && !strings.HasPrefix(ev.Path, "/dev/") {
-			add("mrp-wrote-outside-the-pipestance", fmt.Sprintf("%s %s (from %s)", ev.Op, ev.Path, ev.Site))
+			oc.add("mrp-wrote-outside-the-pipestance", fmt.Sprintf("%s %s (from %s)", ev.Op, ev.Path, ev.Site))
 			break
 		}
 	}
-	return oc
 }
 
 func c13Case(c *Ctx) {
@@ -416,8 +494,8 @@ func c13Case(c *Ctx) {
 		return
 	}
 	if twin.Class() != "complete" {
-		if twin.Class() == "failed" {
-			c.Res.Notes = append(c.Res.Notes, "base run failed: "+lastLines(twin.outBuf.String(), 6))
+		if twin.Class() == "failed" || twin.Class() == "rejected-at-start" {
+			c.Res.Notes = append(c.Res.Notes, "base run "+twin.Class()+": "+lastLines(twin.outBuf.String(), 8))
 		}
 		return
 	}
@@ -436,7 +514,7 @@ func c13Case(c *Ctx) {
 				return true
 			}
 		}
-		expTop, _ := t2.plain().(map[string]interface{})
+		expTop := t2.plain()
 		oc := r.CheckOutsDir(prog, expTop, func(oracle, msg string) {
 			c.Res.Violations = append(c.Res.Violations, Violation{"C13", oracle, "[vdrmode=" + mode + ", " + what + "] " + msg, r.Steps})
 		})
@@ -652,8 +730,11 @@ func templateOutsProg(plan *Tape) *Prog {
 			cands = append(cands, cand{"oa_bykey", Ty{Base: "json", Dims: "am"}, ref("MAKE", "oa", "bykey")})
 		}
 	}
+	// (a map-called top-level pipeline must not contain map calls: nested map calls are
+	// excluded everywhere, DESIGN.md section 14 D1/D6)
+	mappedTop := plan.Draw(5) == 0
 	// a producer map-called over a literal or run-time collection: one file per fork
-	if plan.Draw(2) == 0 {
+	if plan.Draw(2) == 0 && !mappedTop {
 		each := &StageDef{Name: "EACH", SrcKind: "comp", Ins: []Field{{"x", intT}}, Outs: []Field{{"part", bam}, {"rec", Ty{Base: "FS"}}, {"k", intT}}}
 		p.Stages = append(p.Stages, each)
 		c := &CallDef{Callee: "EACH", Id: "EACH", Mapped: true}
@@ -764,5 +845,33 @@ func templateOutsProg(plan *Tape) *Prog {
 	}
 	p.Pipelines = append(p.Pipelines, top)
 	p.Top = &CallDef{Callee: "TOPO", Id: "TOPO", Binds: []Bind{{"seed", lit(plan.Draw(100000)), false}}}
+	if mappedTop {
+		// the top-level pipeline itself is map-called: every element gets its own
+		// directory outs/<index or key> and _outs is a collection
+		p.Top.Mapped = true
+		hasMap := false
+		for _, f := range append(append([]Field{}, top.Outs...), outs...) {
+			if strings.Contains(f.T.Dims, "m") {
+				// map<map<..>> is not a type (and a typed map anywhere inside a
+				// pipeline that is map-called over a typed map makes mrp panic at
+				// start-up: DESIGN.md section 14, D4)
+				hasMap = true
+			}
+		}
+		if plan.Draw(2) == 0 || hasMap {
+			n := 1 + plan.Draw(3) // ("split []" is a parse error)
+			arr := []interface{}{}
+			for i := 0; i < n; i++ {
+				arr = append(arr, int64(plan.Draw(1000)))
+			}
+			p.Top.Binds = []Bind{{"seed", &Expr{Kind: ELit, Val: arr, T: intT.ArrayOf()}, true}}
+		} else {
+			m := NewOMap()
+			for _, k := range []string{"first", "second one", "thi.rd"}[:1+plan.Draw(3)] {
+				m.Set(k, int64(plan.Draw(1000)))
+			}
+			p.Top.Binds = []Bind{{"seed", &Expr{Kind: ELit, Val: m, T: intT.MapOf()}, true}}
+		}
+	}
 	return p
 }
